@@ -814,6 +814,17 @@ func c09seeds(ctx *verifhlib.Ctx, dir func() string) {
 		x.getmd(1, 1, 0)
 		x.getmd(1, 2, 0)
 	})
+	// metadata written before completion must reach the disk with the data
+	c09run(ctx, dir(), roomy, "seed-metadata-before-complete", func(x *c09exec) {
+		x.create(1, []byte{7}, 2)
+		x.setmd(1, 1, []byte{1})
+		x.setmd(1, 2, []byte{2, 2})
+		x.mark(1)
+		x.drain()
+		x.pressure(8)
+		x.getmd(1, 1, 0)
+		x.getmd(1, 2, 0)
+	})
 	// delete at every stage of a flush, then re-create after the flush has ended (allowed by H2)
 	for _, pt := range []int{1, 2, 4, 5, 6, 7, 8, 9} {
 		pt := pt
@@ -951,38 +962,65 @@ func c09random(ctx *verifhlib.Ctx, r *verifhlib.Rng, dir string, long bool) {
 			if r.Chance(8) {
 				k = 3
 			}
-			sh := x.shadow[k]
-			c := r.Intn(100)
-			switch {
-			case sh == 0 && c < 80, sh != 0 && c < 3:
+			// weights per (believed) state of the key: mostly valid operations
+			type w struct {
+				op string
+				n  int
+			}
+			var ws []w
+			switch x.shadow[k] {
+			case 0:
+				ws = []w{{"create", 80}, {"setmd", 4}, {"getmd", 4}, {"open", 4}, {"has", 3}, {"del", 3}, {"mark", 2}}
+			case 1:
+				ws = []w{{"mark", 40}, {"setmd", 20}, {"delmd", 5}, {"getmd", 8}, {"open", 8}, {"has", 3}, {"list", 3},
+					{"del", 6}, {"pressure", 4}, {"create", 3}}
+			default:
+				ws = []w{{"setmd", 26}, {"delmd", 8}, {"getmd", 12}, {"open", 12}, {"has", 4}, {"list", 4}, {"del", 12},
+					{"pressure", 10}, {"mark", 3}, {"create", 3}, {"where", 6}}
+			}
+			tot := 0
+			for _, e := range ws {
+				tot += e.n
+			}
+			c := r.Intn(tot)
+			op := ""
+			for _, e := range ws {
+				if c < e.n {
+					op = e.op
+					break
+				}
+				c -= e.n
+			}
+			switch op {
+			case "create":
 				if respect && x.midFlush(k) {
 					continue
 				}
 				size := uint64([]int{2, 2, 4, 9}[r.Intn(4)])
 				x.create(k, r.Bytes(r.Range(0, 3)), size)
-			case sh == 1 && c < 55, sh == 2 && c < 6:
+			case "mark":
 				x.mark(k)
-			case c < 30:
+			case "setmd":
 				if respect && x.pt == 9 && x.wkey == k {
 					continue
 				}
 				x.setmd(k, r.Range(1, 2), r.Bytes(r.Range(0, 2)))
-			case c < 38:
+			case "delmd":
 				if respect && x.pt == 9 && x.wkey == k {
 					continue
 				}
 				x.delmd(k, r.Range(1, 2))
-			case c < 50:
+			case "getmd":
 				x.getmd(k, r.Range(1, 2), r.Intn(3))
-			case c < 62:
+			case "open":
 				x.open(k, r.Intn(3))
-			case c < 67:
+			case "has":
 				x.has(k, r.Intn(3))
-			case c < 72:
+			case "list":
 				x.list(r.Intn(3))
-			case c < 84:
+			case "del":
 				x.del(k)
-			case c < 94:
+			case "pressure":
 				x.pressure(cfg.memCap)
 			default:
 				x.where(k)
